@@ -149,6 +149,7 @@ def renderings(schema):
         ("json_no_builtins_with_meta", "json", schema.introspection(builtins=False, meta_types=True), True),
         ("sdl_grouped_by_kind", "graphql", schema.sdl(order=kind_grouped(schema)), True),
         ("json_grouped_by_kind", "json", schema.introspection(order=kind_grouped(schema)), True),
+        ("sdl_builtin_scalars_declared", "graphql", "scalar ID\nscalar String\n" + schema.sdl() + "\nscalar Int\nscalar Float\nscalar Boolean\n", True),
         ("sdl_reversed", "graphql", schema.sdl(order=names[::-1]), False),
         ("json_reversed", "json", schema.introspection(order=names[::-1]), False),
     ]
